@@ -151,7 +151,7 @@ def funcKey (env : Env) (m : MethodEntry) : String :=
 /-- in receiver style the method must not collide with a field or method of the receiver type (the
 package-level check is the parser's); no function may be asked for twice -/
 def collision (env : Env) (m : MethodEntry) (src : ParamVar) (built : List String) : Option String :=
-  if m.opts.receiver != "" && (match env.lookup src.ty m.decl.name with | .none => false | _ => true) then
+  if m.opts.receiver != "" && env.hasMember src.ty m.decl.name then
     some s!"{m.decl.pos}: the receiver type already has a field or method {m.decl.name}"
   else if built.contains (funcKey env m) then
     some s!"{m.decl.pos}: {m.decl.name} is generated twice"
